@@ -81,7 +81,16 @@ func concurrentCheck(cs []Case) func(i int) error {
 		}
 		for k := 0; k < 6; k++ {
 			for j, e := range es {
-				out, err := e.call()
+				// every other call reuses the case's own geometry value, uncloned, as the argument (round L4:
+				// the same argument value across consecutive calls, and across goroutines when the group
+				// holds the same case twice); the other calls get fresh guarded copies
+				var out orb.MultiPolygon
+				var err error
+				if k%2 == 1 {
+					out, err = e.on(c.Geom.V)
+				} else {
+					out, err = e.call()
+				}
 				if err != nil {
 					return fmt.Errorf("%s: %v", e.name, err)
 				}
@@ -104,7 +113,7 @@ func concurrentCheck(cs []Case) func(i int) error {
 // TestPropConcurrent evaluates 2..8 independent cases at the same time on separate goroutines.
 func TestPropConcurrent(t *testing.T) {
 	assumptions()
-	stats.Check(t, 1200, 24000, func(rt *rapid.T) {
+	stats.Check(t, 1000, 24000, func(rt *rapid.T) {
 		n := rapid.IntRange(2, 8).Draw(rt, "goroutines")
 		var cs []Case
 		cut := 0
@@ -122,16 +131,28 @@ func TestPropConcurrent(t *testing.T) {
 			stats.Class("concurrent:rejected (fewer than 2 usable cases)")
 			return
 		}
+		if len(cs) < 8 && rapid.IntRange(0, 3).Draw(rt, "same case twice") == 0 {
+			// two goroutines are handed the very same geometry value (shared memory, read-only)
+			cs = append(cs, cs[0])
+			stats.Class("concurrent:one input value shared by two goroutines")
+		}
 		stats.Class(fmt.Sprintf("concurrent:%d goroutines", len(cs)))
 		if cut >= 2 {
 			stats.Class("concurrent:at least two cases with 2+ pieces")
 		}
 		// every member is cut by the box (non-trivial by the package's rule), so is the group
-		stats.NonTrivial("conc:" + gen.JSON(cs))
+		before := gen.JSON(cs)
+		stats.NonTrivial("conc:" + before)
 		if stats.WantSample("concurrent") {
 			stats.Sample("concurrent", cs)
 		}
 		stats.TryParallel(rt, "TestPropConcurrent", cs, len(cs), 16, concurrentCheck(cs))
+		stats.Try(rt, "TestPropConcurrent", cs, func() error {
+			if gen.JSON(cs) != before {
+				return fmt.Errorf("an input geometry handed to smartclip uncloned was modified")
+			}
+			return nil
+		})
 		// On an oversubscribed machine the concurrent collector is starved while 2..8 goroutines allocate
 		// (mark phases of seconds for a 15 MB heap were measured), garbage of many groups piles up and the
 		// heap watchdog of internal/stats would blame the library. Collect between groups when the heap has
